@@ -9,8 +9,9 @@ func (rt *runtime) cmplEvaluateNodeProgram(node *nodeProgram, eval bool) Value {
 		rt.enterGlobalScope()
 		defer rt.leaveScope()
 	}
-	rt.cmplFunctionDeclaration(node.functionList)
-	rt.cmplVariableDeclaration(node.varList)
+	// 10.5 step 2: the bindings of eval code are deletable (configurableBindings).
+	rt.cmplFunctionDeclaration(node.functionList, eval)
+	rt.cmplVariableDeclaration(node.varList, eval)
 	if eval {
 		// Eval code runs in the scope of its caller: give the caller's frame back its own file
 		// and call site afterwards.
@@ -66,8 +67,8 @@ func (rt *runtime) cmplCallNodeFunction(function *object, stash *fnStash, node *
 		}
 	}
 
-	rt.cmplFunctionDeclaration(node.functionList)
-	rt.cmplVariableDeclaration(node.varList)
+	rt.cmplFunctionDeclaration(node.functionList, false)
+	rt.cmplVariableDeclaration(node.varList, false)
 
 	result := rt.cmplEvaluateNodeStatement(node.body)
 	if result.kind == valueResult {
@@ -77,9 +78,8 @@ func (rt *runtime) cmplCallNodeFunction(function *object, stash *fnStash, node *
 	return Value{}
 }
 
-func (rt *runtime) cmplFunctionDeclaration(list []*nodeFunctionLiteral) {
+func (rt *runtime) cmplFunctionDeclaration(list []*nodeFunctionLiteral, eval bool) {
 	executionContext := rt.scope
-	eval := executionContext.eval
 	stash := executionContext.variable
 
 	for _, function := range list {
@@ -97,9 +97,8 @@ func (rt *runtime) cmplFunctionDeclaration(list []*nodeFunctionLiteral) {
 	}
 }
 
-func (rt *runtime) cmplVariableDeclaration(list []string) {
+func (rt *runtime) cmplVariableDeclaration(list []string, eval bool) {
 	executionContext := rt.scope
-	eval := executionContext.eval
 	stash := executionContext.variable
 
 	for _, name := range list {
